@@ -1206,6 +1206,16 @@ def gen_big(rng, tier):
         mk_ordering(rng, n=rng.choice([64, 100, 500])),
         mk_nmeas(rng, n=rng.choice([64, 100])),
     ]
+    # term-count ladder (no bound in the property): across the round numbers where a block-wise / chunked conversion would sit,
+    # each with its neighbours (a dropped or doubled LAST item shows at n = block * k + 1)
+    # (the harness re-reads and re-converts every operator several times: ~7 s for 512 terms, so the quick tier stops at 257)
+    ladder = [64, 100, 128, 256, 512, 1000, 1024] if tier == "thorough" else [64, 100, 128, 256]
+    sizes = {129, 257} | {x + d for x in rng.sample(ladder, 3 if tier == "thorough" else 2) for d in (-1, 0, 1)}
+    if tier == "thorough":
+        sizes |= {513, 1025}
+    for n in sorted(sizes):
+        out.append({"kind": "op", "via": rng.choice(["dict", "dict", "json", "file"]), "terms": gen_simple_operator(rng, n, pool=list(range(7)), exact=True)})
+    out.append(mk_opset(rng, via="file", n=rng.choice([129, 257])))
     # wide registers: leading zeros and a sibling differing in the leading bit
     w = rng.choice([9, 13])
     out.append({"kind": "meas", "via": "path", "bitstrings": [[0] * w, [0] * (w - 1) + [1], [1] + [0] * (w - 1), [0, 1] + [0] * (w - 2)], "np": False})
